@@ -130,15 +130,33 @@ def judge_outputs(chk, what, spec, names, cols, nkeys, expected, tagprefix):
 	return True
 
 
-def run_aggregate(chk, spec):
+def model_or_raise(spec, groups, expand=None):
+	"""expected outputs, or the exception a custom function raises on some group's values (which the call must then let through)"""
+	try:
+		return expected_outputs(spec, groups, expand), None
+	except Exception as exc:
+		return None, exc
+
+
+def apply_raises(chk, what, spec, o, exc):
+	if o.ok:
+		chk.fail("a custom apply function receives each group's values (None included) and its outcome is the call's outcome", f"{what}/apply-exception-swallowed/{type(exc).__name__}",
+			f"{spec!r}: an apply function raises {type(exc).__name__}({exc}) on some group's values, but {what} returned {short(J.cells(o.value), 200)}")
+
+
+def run_aggregate(chk, spec, table=None):
 	spies = Spies()
-	o, t = common.do_agg(spec, op="aggregate", spies=spies)
+	o, t = common.do_agg(spec, op="aggregate", spies=spies, table=table)
 	n = spec["n"]
 	keycols = [common.ref_values(spec, r) for r in spec["over"]]
 	groups = model_groups(keycols, n)
+	expected, model_exc = model_or_raise(spec, groups)
 	fns = tuple(sorted(spec["aggs"])) + tuple(sorted(a["fn"] for a in spec["apply"]))
 	chk.judged("aggregate", ("agg", len(keycols), tuple(r["mode"] for r in spec["over"]), min(len(groups), 4), fns,
 		any(v is None for c in spec["table"]["cols"] for v in c)))
+	if model_exc is not None:
+		apply_raises(chk, "aggregate", spec, o, model_exc)
+		return
 	if not o.ok:
 		chk.fail("aggregate computes every admissible request", f"aggregate/raises/{type(o.exc).__name__}", f"{spec!r} raised {o!r}")
 		return
@@ -165,10 +183,12 @@ def run_aggregate(chk, spec):
 		chk.fail("rows follow first appearance of each key tuple, key columns first", f"aggregate/key-{cls}",
 			f"{spec!r}: keys {gotkeys!r}, expected {expkeys!r}")
 		return
-	if not judge_outputs(chk, "aggregate", spec, names, cols, nk, expected_outputs(spec, groups), "aggregate"):
+	if not judge_outputs(chk, "aggregate", spec, names, cols, nk, expected, "aggregate"):
 		return
 	# apply spies: exactly once per group, with that group's values (None included) in row order
 	for a in spec["apply"]:
+		if a["fn"].startswith("builtin-"):
+			continue      # passed unwrapped
 		data = common.ref_values(spec, a["col"])
 		want = sorted(repr(tuple(data[i] for i in rows)) for _, rows in groups)
 		have = sorted(repr(c) for c in spies.calls.get(a["out"], []))
@@ -181,8 +201,22 @@ def run_aggregate(chk, spec):
 
 
 def run_vector_agree(chk, spec):
-	vals = spec["values"]
+	vals = list(spec["values"])
 	v = Vector(list(vals), name="v")
+	for idxs, news in spec.get("writes", []):
+		# in-place writes first (index lists may name one cell twice: the last value wins, as in a Python loop)
+		w = call(v.__setitem__, list(idxs) if spec.get("idx_form", "list") == "list" else Vector(list(idxs)), list(news))
+		if not w.ok:
+			chk.skip("vector-agree-write-refused")
+			return
+		for i, x in zip(idxs, news):
+			vals[i] = x
+	if not M.eq_list(list(v._underlying), vals):
+		chk.skip("vector-agree-write-differs")      # (C08's subject)
+		return
+	if all(x is None for x in vals):
+		chk.skip("vector-agree-all-none")
+		return
 	t = Table([Vector([spec["key"]] * len(vals), name="k"), v])
 	o = call(lambda: t.aggregate(over="k", sum_over="v", mean_over="v", min_over="v", max_over="v", stdev_over="v"))
 	chk.judged("vector-agree", ("vagree", spec["kind"], len(vals), sum(1 for x in vals if x is None)))
@@ -202,7 +236,36 @@ def run_vector_agree(chk, spec):
 			return
 
 
-RUNNERS = {"aggregate": run_aggregate, "vector_agree": run_vector_agree}
+def run_agg_chain(chk, spec):
+	"""the table an aggregate / window returned is aggregated again AS IT IS (not rebuilt): the second stage is judged on the cells the first stage returned"""
+	first, t = common.do_agg(spec["first"])
+	if not first.ok or not isinstance(first.value, Table) or len(first.value) == 0:
+		chk.skip("agg-chain-first-stage-empty")
+		return
+	mid = first.value
+	names, cols = J.cells(mid)
+	if len(set(map(repr, names))) != len(names) or any(not isinstance(nm, str) for nm in names):
+		chk.skip("agg-chain-ambiguous-names")
+		return
+	nk = len(spec["first"]["over"])
+	valcols = [nm for nm, c in zip(names[nk:], cols[nk:]) if all(x is None or (isinstance(x, (int, float)) and not isinstance(x, bool)) for x in c)]
+	if not valcols or nk == 0:
+		chk.skip("agg-chain-no-numeric-output")
+		return
+	import random
+	rng = random.Random(len(names) * 31 + len(mid))
+	target = rng.choice(valcols)
+	fns = rng.sample(["sum", "mean", "min", "max", "count"], rng.choice([2, 3]))
+	second = {"op": spec["second_op"], "table": {"names": names, "cols": cols}, "n": len(mid), "over": [{"mode": rng.choice(["name", "vector"]), "name": names[0]}], "scalar_over": rng.random() < 0.5,
+		"aggs": {f: [{"mode": rng.choice(["name", "vector"]), "name": target}] for f in fns}, "apply": [{"out": "vals", "col": {"mode": "name", "name": target}, "fn": "tuple"}]}
+	if spec["second_op"] == "aggregate":
+		run_aggregate(chk, second, table=mid)
+	else:
+		from . import c13
+		c13.run_window(chk, second, table=mid)
+
+
+RUNNERS = {"aggregate": run_aggregate, "vector_agree": run_vector_agree, "agg_chain": run_agg_chain}
 RUNNERS["recompute"] = recompute.runner("C12")
 
 
@@ -225,6 +288,21 @@ def exhaustive_specs(chk, op):
 				"apply": [{"out": "custom", "col": {"mode": "name", "name": "v"}, "fn": rng.choice(["tuple", "first", "drain"])}]}
 
 
+def chain_cases(chk, second_op):
+	rng = chk.rng
+	for _ in range(150 if chk.quick() else 1000):
+		n = rng.choice([3, 4, 6])
+		k1 = [rng.choice(["a", "b"]) for _ in range(n)]
+		k2 = [rng.choice([1, 2, 3]) for _ in range(n)]
+		v = [rng.choice([None, 1, 5, 2.5, -3]) for _ in range(n)]
+		if rng.random() < 0.5:
+			v = [None if (a, b) == (k1[0], k2[0]) else x for a, b, x in zip(k1, k2, v)]      # an all-None group
+		first = {"op": rng.choice(["aggregate", "aggregate", "window"]), "table": {"names": ["k1", "k2", "v"], "cols": [k1, k2, v]}, "n": n,
+			"over": [{"mode": "name", "name": "k1"}, {"mode": "name", "name": "k2"}], "scalar_over": False,
+			"aggs": {f: [{"mode": "name", "name": "v"}] for f in rng.sample(["min", "max", "sum", "mean", "count"], rng.choice([1, 2, 3]))}, "apply": []}
+		chk.case("agg_chain", {"first": first, "second_op": second_op}, "agg-chain")
+
+
 def run(chk):
 	recompute.add_cases(chk, "C12")
 	rng = chk.rng
@@ -232,10 +310,20 @@ def run(chk):
 		chk.case("aggregate", spec, "aggregate-exhaustive")
 	for _ in range(700 if chk.quick() else 4000):
 		chk.case("aggregate", common.gen_agg_spec(rng, max_rows=rng.choice([6, 10]) if chk.quick() else rng.choice([6, 10, 40, 150]), op="aggregate"), "aggregate-sampled")
+	chain_cases(chk, "aggregate")
 	for _ in range(150 if chk.quick() else 800):
 		kind = rng.choice(["int", "float", "bool"])
 		n = rng.choice([1, 2, 3, 6])
 		vals = V.column(rng, kind, n, rng.choice(["none", "low", "high", "first"]), small=True)
 		if all(x is None for x in vals):
 			vals[rng.randrange(n)] = V.pick(rng, kind, small=True)
-		chk.case("vector_agree", {"values": vals, "kind": kind, "key": rng.choice(["g", None, 1])}, "vector-agree")
+		spec = {"values": vals, "kind": kind, "key": rng.choice(["g", None, 1])}
+		if rng.random() < 0.5 and n > 1:
+			writes = []
+			for _w in range(rng.choice([1, 2])):
+				i = rng.randrange(n)
+				j = rng.choice([i, i - n, rng.randrange(n)])
+				writes.append(([i, j], [rng.choice([None, V.pick(rng, kind, small=True)]), rng.choice([None, V.pick(rng, kind, small=True)])]))
+			spec["writes"] = writes
+			spec["idx_form"] = rng.choice(["list", "vector"])
+		chk.case("vector_agree", spec, "vector-agree")
